@@ -31,7 +31,7 @@ func genC05(dir, tier string, seed int64) {
 		n = 15000
 	}
 	cw := newCaseWriter(dir, "C05_conv", opHeader("CheckC05"), opFooter,
-		"seeded random, stratified: 1-D and 2-D; N,C,M in 1..3; spatial extents 2..7 per axis independently (non-square); kernel extents 1..3 per axis independently (extent 1 kept a minority: mostly refused); strides 1..3 and dilations 1..2 per axis independently; pads 0..2 per side independently; auto_pad in {absent, NOTSET, SAME_UPPER, SAME_LOWER, VALID}; kernel_shape given or inferred; group absent, 1, or (1 case in 14 each) another value / an attribute Conv does not know, inserted at a random position of the attribute list, with the weight shape of a grouped convolution in half of them; bias present/absent; float32 and float64; integer-valued data in -3..3 so that float arithmetic is exact and results are compared exactly", false, 300)
+		"seeded random, stratified: 1-D and 2-D; N,C,M in 1..3; spatial extents 2..7 per axis independently (non-square; 1 in one axis of six); kernel extents 1..3 per axis independently (extent 1 kept a minority: mostly refused); strides 1..3 and dilations 1..2 per axis independently; pads 0..2 per side independently; auto_pad in {absent, NOTSET, SAME_UPPER, SAME_LOWER, VALID}; kernel_shape given or inferred; group absent, 1, or (1 case in 14 each) another value / an attribute Conv does not know, inserted at a random position of the attribute list, with the weight shape of a grouped convolution in half of them; bias present/absent; float32 and float64; integer-valued data in -3..3 so that float arithmetic is exact and results are compared exactly", false, 300)
 	r := rand.New(rand.NewSource(seed))
 	for c := 0; c < n; c++ {
 		nsp := 1 + r.Intn(2)
@@ -44,6 +44,9 @@ func genC05(dir, tier string, seed int64) {
 		pads := make([]int64, 2*nsp)
 		for i := 0; i < nsp; i++ {
 			sp[i] = 2 + r.Intn(6)
+			if r.Intn(6) == 0 {
+				sp[i] = 1 // a 1 x W row feature map, a length-1 sequence
+			}
 			ks[i] = 1 + r.Intn(3)
 			if r.Intn(4) != 0 && ks[i] == 1 {
 				ks[i] = 2
